@@ -164,7 +164,7 @@ class Gen:
         else:
             k = self.rng.choice([1, 2, 2, 3])
             ifn = [self.fresh('fp') for _ in range(k)]
-            if 'dup_fac_if' not in self.avoid and k > 1 and self.rng.random() < 0.15:
+            if k > 1 and self.rng.random() < 0.15:
                 ifn[-1] = ifn[0]
         fid = self.new_id('f')
         if self.bases and self.rng.random() < 0.4:
@@ -191,8 +191,6 @@ class Gen:
         return ['remove_switch', self.rng.choice(names)]
 
     def service_type(self):
-        if 'L2Multisite' in self.avoid:
-            return self.rng.choice([t for t in SERVICE_TYPES if t != 'L2Multisite'])
         return self.rng.choice(SERVICE_TYPES)
 
     def op_add_ns(self):
